@@ -86,7 +86,10 @@ def describe(e, sources, names):
 
 def child(case, cdir, wfd):
     mem = int(case.get('mem_mb', 4096)) << 20
-    resource.setrlimit(resource.RLIMIT_AS, (mem, mem))
+    # only the soft limit: it is lifted again when the outcome is reported (a process at its limit cannot even format
+    # the traceback of the MemoryError it got)
+    hard = resource.getrlimit(resource.RLIMIT_AS)[1]
+    resource.setrlimit(resource.RLIMIT_AS, (mem, hard))
     resource.setrlimit(resource.RLIMIT_CORE, (0, 0))
     paths, names, sources = [], [], ''
     for name, hx in case['files']:
@@ -109,6 +112,7 @@ def child(case, cdir, wfd):
                               fjm_version=FJMVersion(case['v']), print_time=False, **kw)
         obs = {'result': 'ok'}
     except BaseException as e:  # noqa  (everything is an observation)
+        resource.setrlimit(resource.RLIMIT_AS, (hard, hard))
         sys.setrecursionlimit(5000)
         obs = describe(e, sources, names)
         del e
